@@ -497,7 +497,7 @@ Proof.
 Qed.
 
 Lemma quiet_verify_range a n : quiet (verify_range a n).
-Proof. unfold verify_range. destruct (_ <? _); [apply quiet_fail|apply quiet_ret]. Qed.
+Proof. unfold verify_range. destruct (_ || _); [apply quiet_fail|apply quiet_ret]. Qed.
 
 (* one step of a structural proof that a monadic program is quiet *)
 Ltac qstep :=
